@@ -245,6 +245,9 @@ impl<T, Ptr: PointerFamily> MetaSlotMap<T, Ptr> {
         }
 
         let entry = self.idx_to_data_free_list[idx];
+        if self.idx_to_data_free_list_head == idx {
+            self.idx_to_data_free_list_head = entry.next;
+        }
         if entry.previous != INVALID {
             self.idx_to_data_free_list[entry.previous].next = entry.next;
         }
